@@ -261,6 +261,8 @@ def step (st : St) (line : String) : St × String :=
     let w1 := st.w.wrapEffect kind core
     let (w2, m1) := w1.renderTo x wr
     let (s1, stop1) := World.renderString m1
+    -- a panic in the first call ends the Go-side operation: the second call never runs
+    if (match stop1 with | some (.panic _) => true | _ => false) then ({ st with w := w2 }, "PANIC") else
     let w3 := w2.wrapEffect kind core
     let (w4, m2) := w3.renderTo x wr
     let stop2 := match m2.res with | .ok _ => none | .error s => some s
@@ -272,6 +274,8 @@ def step (st : St) (line : String) : St × String :=
     let w1 := st.w.wrapEffect kind core
     let (w2, m1) := w1.renderTo x wr
     let (s1, stop1) := World.renderString m1
+    -- a panic in the first call ends the Go-side operation: the second call never runs
+    if (match stop1 with | some (.panic _) => true | _ => false) then ({ st with w := w2 }, "PANIC") else
     let w3 := w2.wrapEffect kind core
     let (w4, m2) := w3.renderTo x wr
     let stop2 := match m2.res with | .ok _ => none | .error s => some s
@@ -422,11 +426,17 @@ def step (st : St) (line : String) : St × String :=
   | [] => (st, "")
   | _ => (st, "bad-op")
 
+/-- the harness sends `renderbuf W kind` unrewritten only when the Go call panicked; it is a `render` -/
+def normLine (l : String) : String :=
+  match l.splitOn " " with
+  | ["renderbuf", wv, _] => "render " ++ wv
+  | _ => l
+
 partial def loop (hin : IO.FS.Stream) (hout : IO.FS.Stream) (st : St) : IO Unit := do
   let line ← hin.getLine
   if line.isEmpty then return ()
   let l := (line.dropEndWhile (fun c => c == '\n' || c == '\r')).toString
-  let (st', out) := step st l
+  let (st', out) := step st (normLine l)
   -- a Go panic unwinds the whole call: the harness reports the bare word
   let out := if (out.splitOn "res=PANIC").length > 1 || (out.splitOn "res2=PANIC").length > 1 then "PANIC" else out
   hout.putStrLn out
